@@ -3,7 +3,7 @@ import numpy as np
 
 import xobjects as xo
 from xv import bufmon
-from xv.typegen import kinds_in, shape_sig, is_static, plain, build, AVal, max_fit
+from xv.typegen import kinds_in, shape_sig, is_static, plain, build, AVal, max_fit, walk
 from xv.model import compare, exc_kind, nodes, get_path, set_path, ar_sig
 from xv.decoder import slot, plan_size
 from xv.props.common import new_case, build_root, flush_contracts, ctxs
@@ -13,10 +13,13 @@ LEVEL = "exploration"
 N_QUICK, N_THOROUGH = 60000, 2000000
 T_QUICK, T_THOROUGH = 70, 1500
 CLASSES = ["index-get", "index-set", "negative-index", "length", "shape", "int-length", "string-too-long",
-           "bigger-items", "non-member", "wrong-context", "offset-no-buffer", "construct-shape", "struct-with-other-length"]
+           "bigger-items", "non-member", "wrong-context", "offset-no-buffer", "construct-shape", "struct-with-other-length",
+           "struct-one-refused-field"]
 FLOORS = {"attempts": 20000, "raised": 15000, "state_checks": 20000}
 FLOORS.update({"class:" + c: 300 for c in CLASSES})
 FLOORS["class:struct-with-other-length"] = 80
+FLOORS["class:struct-one-refused-field"] = 80
+FLOORS.update({"negative_index_assignments": 100, "non_member_from_same_family": 50})
 FLOORS.update({"multibyte_too_long_strings": 300, "misuse_value_as_xobject": 300})
 RULE = ("random type AST x value x placement with a neighbouring xobject; up to 8 misuse attempts per object, each at a "
         "random applicable element position, through handle or view: index outside shape (get/set, negative on "
@@ -140,13 +143,17 @@ def _plan(cls_, rng, c, allnodes, env):
         key = idx[0] if len(idx) == 1 and rng.random() < 0.5 else idx
         itv = plain(nt["it"], vg.value(nt["it"]), rng)
 
+        setit = cls_ == "index-set" or (cls_ == "negative-index" and rng.random() < 0.5)
+        if setit and cls_ == "negative-index":
+            _W[0].count("negative_index_assignments")
+
         def fn(base, p=p, key=key):
             a = get_path(base, p)
-            if cls_ == "index-set":
+            if setit:
                 a[key] = itv
             else:
                 a[key]
-        return f"{ar_sig(nt)}", f"{l}[{key}] ({cls_})", fn
+        return f"{ar_sig(nt)}", f"{l}[{key}] ({cls_}{', assignment' if setit else ''})", fn
     if cls_ in ("length", "shape", "int-length"):
         cand = [a for a in owned if a[0]]
         if cls_ == "shape":
@@ -156,9 +163,17 @@ def _plan(cls_, rng, c, allnodes, env):
         p, l, nt, nv = rng.choice(cand)
         shape = list(nv.shape)
         if cls_ == "int-length":
-            n = int(np.prod(shape)) + rng.choice([1, 2, -1]) if np.prod(shape) > 0 else 1
-            if n < 0:
-                n = 1
+            # an integer stands for the extent of the (single) dynamic dimension: anything but the current
+            # extent is another shape
+            dyn = [i for i, d in enumerate(nt["dims"]) if d is None]
+            if len(dyn) != 1:
+                return None
+            ext = shape[dyn[0]]
+            cnt = int(np.prod(shape))
+            opts = [x for x in (ext + 1, ext + 2, ext - 1, cnt, cnt + 1) if x >= 0 and x != ext]
+            n = rng.choice(opts)
+            if n == cnt and len(shape) > 1:
+                _W[0].count("int_length_equal_item_count")
             newarg = n
         else:
             if cls_ == "length":
@@ -238,12 +253,47 @@ def _plan(cls_, rng, c, allnodes, env):
         def fn(base, p=p, newarg=newarg):
             set_path(base, p, newarg)
         return _poskind(p), f"{l} = {how} of the same class with {fn_} of length {n1} instead of {n0}", fn
+    if cls_ == "struct-one-refused-field":
+        cand = []
+        for p, l, nt, nv in allnodes:
+            if nt["k"] == "st" and p and len(nt["f"]) >= 2 and not (l.endswith("->") or (l[-1].isdigit() and l[-3:-1] == "->")):
+                bad = [i for i, (fn_, ft) in enumerate(nt["f"]) if i > 0 and (ft["k"] == "str" or ft["k"] == "ur")]
+                if bad:
+                    cand.append((p, l, nt, nv, bad))
+        if not cand:
+            return None
+        p, l, nt, nv, bad = rng.choice(cand)
+        bi = rng.choice(bad)
+        fnb, ftb = nt["f"][bi]
+        newv = dict(plain(nt, vg.same_shape(nt, nv), rng))
+        if ftb["k"] == "str":
+            newv[fnb] = _long_string(nv[fnb], rng, _W[0])
+            what = "a string that does not fit"
+        else:
+            newv[fnb] = ("NoSuchMember", {"zz": 1})
+            what = "a type name that is not a member"
+
+        def fn(base, p=p, newv=newv):
+            set_path(base, p, newv)
+        return _poskind(p), f"{l} = dict whose field {fnb} (#{bi}) is {what}; the fields before it are acceptable", fn
     if cls_ == "non-member":
         cand = [x for x in allnodes if x[2]["k"] == "ur" and x[0]]
         if not cand:
             return None
         p, l, nt, nv = rng.choice(cand)
-        if rng.random() < 0.5:
+        others = [n for n in walk(t) if n["k"] in ("st", "ar") and not any(n is m for m in nt["m"])
+                  and not any(n["n"] == m["n"] for m in nt["m"])]
+        r_ = rng.random()
+        if others and r_ < 0.4:
+            ot = rng.choice(others)
+            try:
+                val = build(ot, c.cache)(plain(ot, vg.value(ot), rng), _buffer=rng.choice([env.buf, None]))
+            except Exception:
+                return None
+            env.repoison()
+            d = f"object of class {ot['n']} (used elsewhere in the type, not a member of this union)"
+            _W[0].count("non_member_from_same_family")
+        elif r_ < 0.7:
             class Stranger(xo.Struct):
                 zz = xo.Int64
             val = Stranger(zz=5, _buffer=rng.choice([env.buf, None]))
